@@ -22,6 +22,9 @@ def severityTable : List (String × Nat × Nat) := [
   ("TypeChangedKind", 2, 2),
   ("TypeRemoved", 2, 2),
   ("TypeAdded", 0, 0),
+  ("RootTypeChanged", 2, 2),
+  ("RootTypeRemoved", 2, 2),
+  ("RootTypeAdded", 0, 0),
   ("TypeRemovedFromUnion", 2, 2),
   ("TypeAddedToUnion", 1, 1),
   ("TypeRemovedFromInterface", 2, 2),
